@@ -17,7 +17,7 @@
 (*   hlog     Seq([b, h, see])  handler calls: binding, name tuple, and the   *)
 (*                              active states the handler body observed       *)
 (*   vetoed   set of <<b, h>>   handler calls that returned false             *)
-EXTENDS Transition
+EXTENDS Faults
 
 TimeActive(idx, t) == SelectSeq(idx, LAMBDA n : IsActiveTick(t[SIndex(idx, n)]))
 
@@ -245,7 +245,7 @@ C07_JudgedIndividually(fx, sch, topo, o) ==
 C14_CallbackOrder(o) ==
   o.tlog = (<<"init", "start">> \o (IF o.applied THEN <<"finals">> ELSE <<>>) \o <<"end">>)
 
-C14_TimeChain(p, o) == (p.kind = "tx" /\ o.kind = "tx") => o.tb = p.ta
+C14_TimeChain(p, o) == (p.kind = "tx" /\ o.kind = "tx" /\ ~p.faulted) => o.tb = p.ta
 
 C14_AfterIsActual(o) == o.ta = o.mtime
 
